@@ -10,10 +10,12 @@ package main
 
 import (
 	"bufio"
+	"encoding/binary"
 	"fmt"
 	"math"
 	"math/rand"
 	"os"
+	"strings"
 	"time"
 
 	kafka "github.com/segmentio/kafka-go"
@@ -43,11 +45,28 @@ func (i *inst) String() string {
 
 // buildFetch renders a fetch response with a record set of the given physical layout; readN as in connfake.Shape.
 func buildFetch(r *rand.Rand, v int16, magic int8, n, batches int, codec protocol.Attributes, readN int) *inst {
+	return buildFetchTrunc(r, v, magic, n, batches, codec, readN, 0)
+}
+
+// buildFetchTrunc: the set is truncated by `trunc` bytes INSIDE an honest frame (what a broker does at MaxBytes): the
+// records handed out must be a prefix of the stored ones (checked by the fetch op's digest), the Conn stays aligned.
+func buildFetchTrunc(r *rand.Rand, v int16, magic int8, n, batches int, codec protocol.Attributes, readN, trunc int) *inst {
 	op := connfake.OpByName("fetch")
 	sh := &connfake.Shape{Topic: topic, Offset: int64(r.Intn(50)), ReadN: readN}
 	set, msgs, base, err := connfake.RecordSet(r, magic, sh.Offset, n, batches, codec)
 	if err != nil {
 		panic(err)
+	}
+	if trunc > 0 && len(set) > 12 {
+		// never into the first batch / message (offset 8 bytes, length 4 bytes, then `length` bytes): a broker returns
+		// at least one complete one; a set shorter than that is answered with io.ErrUnexpectedEOF and a closed Conn
+		first := 12 + int(binary.BigEndian.Uint32(set[8:12]))
+		if trunc > len(set)-first {
+			trunc = len(set) - first
+		}
+		if trunc > 0 {
+			set = set[:len(set)-trunc]
+		}
 	}
 	sh.Offset, sh.Set, sh.Want, sh.HWM = base, set, msgs, base+int64(n)
 	w := &connfake.W{}
@@ -142,9 +161,19 @@ func scenario(a, b *inst) (line string, slow bool) {
 	sel[a.op.Key] = a.v
 	t0 := time.Now()
 	c, br := connfake.Start(topic, connfake.VersionTable(sel))
+	if b.op.Name == "apiVersions" && a.op.Name != "apiVersions" {
+		// responses are scripted per api key: A's version negotiation would take the ApiVersions response meant for
+		// B.  Run A's operation once before (negotiation included), then script.
+		w, _ := build(rand.New(rand.NewSource(1)), a.op, a.v, nil, false)
+		br.Push(a.op.Key, connfake.Resp{Body: w.body, Cut: -1})
+		guarded(c, w)
+	}
 	br.Push(a.op.Key, connfake.Resp{Body: a.body, Cut: -1})
 	br.Push(b.op.Key, connfake.Resp{Body: b.body, Cut: -1})
 	resA, _ := guarded(c, a)
+	if resA == "shortbuf" {
+		resA = "ok" // Conn.Read into a short buffer: the expected io.ErrShortBuffer, the exchange itself went through
+	}
 	unread := "-"
 	if resA == "ok" || resA[0] == 'k' {
 		unread = guardedBuffered(c)
@@ -189,6 +218,82 @@ func chain(a, b, c *inst, delta int32) (line string, slow bool) {
 	}
 	go func() { conn.Close(); br.Stop() }()
 	return fmt.Sprintf("c11x %s %d %s %s %s\t%s %s %s", gen.Hex([]byte(topic)), delta, a, b, c, res[0], res[1], res[2]), time.Since(t0) > time.Second
+}
+
+// slowLink: A is a fetch of which the caller reads one record and closes the batch; the broker delivers all but the
+// last bytes of A's frame, then nothing for `pause` (longer than A's 200 ms deadline), then the rest and whatever it
+// is asked next.  Nothing is lost — but if Close gives up skipping the rest of the response when the deadline expires,
+// the Conn must not be handed back as if it were at a frame boundary.
+//
+//	c11w <topic hex> <k> <A> <bodyA> <B> <bodyB>\t<resA> <resB>
+func slowLink(a, b *inst, k int, pause time.Duration) (line string) {
+	sel := map[int16]int16{b.op.Key: b.v}
+	sel[a.op.Key] = a.v
+	conn, br := connfake.Start(topic, connfake.VersionTable(sel))
+	// version negotiation first, on a fast link
+	w, _ := build(rand.New(rand.NewSource(1)), b.op, b.v, nil, false)
+	br.Push(b.op.Key, connfake.Resp{Body: w.body, Cut: -1})
+	if res, _ := guarded(conn, w); res != "ok" {
+		go func() { conn.Close(); br.Stop() }()
+		return fmt.Sprintf("c11w %s %d %s %s\twarmup-%s -", gen.Hex([]byte(topic)), k, a, b, res)
+	}
+	br.Push(a.op.Key, connfake.Resp{Body: a.body, Cut: k, Pause: pause})
+	br.Push(b.op.Key, connfake.Resp{Body: b.body, Cut: -1})
+	type rd struct{ res string }
+	ch := make(chan rd, 1)
+	go func() {
+		conn.SetDeadline(time.Now().Add(200 * time.Millisecond))
+		r, _ := runOp(conn, a)
+		ch <- rd{r}
+	}()
+	resA := "hang"
+	select {
+	case x := <-ch:
+		resA = x.res
+	case <-time.After(opWatchdog):
+	}
+	if resA == "shortbuf" {
+		resA = "fail" // an error was reported (io.ErrShortBuffer came first); whether the Conn survived is what B shows
+	}
+	resB := "hang"
+	if resA != "hang" {
+		resB, _ = guarded(conn, b)
+	}
+	go func() { conn.Close(); br.Stop() }()
+	return fmt.Sprintf("c11w %s %d %s %s\t%s %s", gen.Hex([]byte(topic)), k, a, b, resA, resB)
+}
+
+// sequenceN: n operations one after the other on one Conn (a Reader's or a group member's life: fetch, heartbeat,
+// commit, fetch, …), every response scripted.
+//
+//	c11n <topic hex> <n> <A1> <body1> … <An> <bodyn>\t<res1> … <resn>
+func sequenceN(xs []*inst) (line string, slow bool) {
+	sel := map[int16]int16{}
+	for _, x := range xs {
+		sel[x.op.Key] = x.v
+	}
+	t0 := time.Now()
+	conn, br := connfake.Start(topic, connfake.VersionTable(sel))
+	for _, x := range xs {
+		br.Push(x.op.Key, connfake.Resp{Body: x.body, Cut: -1})
+	}
+	res := make([]string, len(xs))
+	hung := false
+	for i, x := range xs {
+		if hung {
+			res[i] = "hang"
+			continue
+		}
+		res[i], _ = guarded(conn, x)
+		hung = res[i] == "hang"
+	}
+	go func() { conn.Close(); br.Stop() }()
+	var sb strings.Builder
+	fmt.Fprintf(&sb, "c11n %s %d", gen.Hex([]byte(topic)), len(xs))
+	for _, x := range xs {
+		fmt.Fprintf(&sb, " %s", x)
+	}
+	return sb.String() + "\t" + strings.Join(res, " "), time.Since(t0) > time.Second
 }
 
 // badSize: A's response carries the size prefix `size` instead of len(body)+4, B follows on the same Conn.
@@ -451,11 +556,74 @@ func main() {
 					emit(a, follower(a))
 				}
 				// Conn.ReadMessage and Conn.Read: one record, then the batch is closed by the library itself
-				for _, via := range []string{"ReadMessage", "Read"} {
+				// "ReadSmall": Conn.Read into a buffer shorter than the value — io.ErrShortBuffer, Conn kept and aligned
+				for _, via := range []string{"ReadMessage", "Read", "ReadSmall"} {
 					a := buildFetch(r, v, l.magic, l.n, l.batches, codec, 1)
 					a.sh.Via = via
 					emit(a, follower(a))
 				}
+			}
+		}
+	}
+	// sets too short for one message / batch header (and just long enough): io.ErrUnexpectedEOF and a closed Conn below
+	// the header size of the format, the usual early end of the batch from there on
+	for _, v := range connfake.OpByName("fetch").Versions {
+		for _, magic := range []int8{1, 2} {
+			if magic == 2 && v < 4 {
+				continue
+			}
+			for _, keep := range []int{1, 12, 16, 17, 25, 26, 27, 60, 61, 62} {
+				a := buildFetch(r, v, magic, 3, 1, 0, 0)
+				if keep >= len(a.sh.Set) {
+					continue
+				}
+				a.sh.Set = a.sh.Set[:keep]
+				w := &connfake.W{}
+				a.op.Build(v, w, r, a.sh)
+				a.body = w.B
+				emit(a, follower(a))
+			}
+			// an unknown magic byte in the first entry: refused (a framing error: A and the follow-up fail)
+			a := buildFetch(r, v, magic, 3, 1, 0, 0)
+			a.sh.Set = append([]byte{}, a.sh.Set...)
+			a.sh.Set[16] = byte(3 + r.Intn(200))
+			w := &connfake.W{}
+			a.op.Build(v, w, r, a.sh)
+			a.body = w.B
+			emit(a, follower(a))
+		}
+	}
+	// ApiVersions as the follow-up operation (inside the main theorems since C11-D33): after every operation, with
+	// and without a broker-reported error in the first response
+	av := connfake.OpByName("apiVersions")
+	for _, op := range connfake.Ops {
+		if op.Name == "apiVersions" {
+			continue
+		}
+		for _, v := range op.Versions {
+			var errs []int16
+			if r.Intn(2) == 0 {
+				errs = []int16{codes[r.Intn(len(codes))]}
+			}
+			a, _ := build(r, op, v, errs, false)
+			var berrs []int16
+			if r.Intn(3) == 0 {
+				berrs = []int16{codes[r.Intn(len(codes))]}
+			}
+			b, _ := build(r, av, 0, berrs, false)
+			emit(a, b)
+		}
+	}
+	// a set truncated inside an honest frame (MaxBytes): the batch ends early (io.EOF after a prefix of the records, or
+	// an error when not even one complete record is there), the Conn stays aligned
+	for _, v := range connfake.OpByName("fetch").Versions {
+		for _, magic := range []int8{1, 2} {
+			if magic == 2 && v < 4 {
+				continue
+			}
+			for _, trunc := range []int{1, 7, 20, 40, 70, 1000} {
+				a := buildFetchTrunc(r, v, magic, 5, 2, 0, 0, trunc)
+				emit(a, follower(a))
 			}
 		}
 	}
@@ -472,6 +640,76 @@ func main() {
 			a.op.Build(v, w, r, a.sh)
 			a.body = w.B
 			emit(a, follower(a))
+		}
+	}
+	// a slow link: the end of a fetch response arrives after the deadline of the Close that skips it
+	for _, v := range connfake.OpByName("fetch").Versions {
+		for _, magic := range []int8{1, 2} {
+			if (magic == 2 && v < 4) || nslow >= 5 {
+				continue
+			}
+			// the caller reads one record and closes; or reads into a buffer that is too short (io.ErrShortBuffer,
+			// an error after which the Conn is kept) and the library closes the batch itself
+			for _, via := range []string{"", "ReadSmall"} {
+				a := buildFetch(r, v, magic, 3, 1, 0, 1)
+				a.sh.Via = via
+				b := follower(a)
+				for b.op.Name == "fetch" {
+					b = follower(a)
+				}
+				b, _ = build(r, b.op, b.v, nil, false)
+				fmt.Fprintln(out, slowLink(a, b, 8+len(a.body)-3, 600*time.Millisecond))
+				ncases++
+			}
+		}
+	}
+	// longer runs on one Conn: 4–7 operations, fetches with records among them, broker-reported errors anywhere; in
+	// half of the runs one response is a framing error (a byte missing / one too many): everything before it as
+	// usual, it and everything after it fail.
+	nseq := 12
+	if thorough {
+		nseq = 120
+	}
+	for i := 0; i < nseq && nslow < 5; i++ {
+		n := 4 + r.Intn(4)
+		var xs []*inst
+		for len(xs) < n {
+			op := connfake.OpByName(followers[r.Intn(len(followers))])
+			if op.Name == "apiVersions" {
+				continue
+			}
+			v := op.Versions[r.Intn(len(op.Versions))]
+			same := true
+			for _, y := range xs { // one version per api key on a Conn
+				if y.op.Key == op.Key && y.v != v {
+					same = false
+				}
+			}
+			if !same {
+				continue
+			}
+			var errs []int16
+			if r.Intn(3) == 0 {
+				errs = []int16{codes[r.Intn(len(codes))]}
+			}
+			x, _ := build(r, op, v, errs, op.Name == "fetch" && len(errs) == 0 && r.Intn(2) == 0)
+			xs = append(xs, x)
+		}
+		if r.Intn(2) == 0 {
+			j := r.Intn(n)
+			if xs[j].op.Name != "fetch" {
+				if r.Intn(2) == 0 && len(xs[j].body) > 1 {
+					xs[j].body = xs[j].body[:len(xs[j].body)-1]
+				} else {
+					xs[j].body = append(append([]byte{}, xs[j].body...), 0)
+				}
+			}
+		}
+		l, slow := sequenceN(xs)
+		fmt.Fprintln(out, l)
+		ncases++
+		if slow {
+			nslow++
 		}
 	}
 	// two requests in flight: when A's frame turns out to be a framing error and the Conn is closed, B — already
